@@ -260,7 +260,9 @@ use Tr::*;
 pub enum Op<O> {
     N, E,
     R { with_e: bool, j: usize, ctx: Tr<O> },
-    T { n: usize, m: usize }, U { m: usize }, I { m: usize },
+    /// `nth`: the iterator is advanced with ONE call of `Iterator::nth(m - 1)` (m >= 1) instead of `m` calls
+    /// of `next`, and only that result is observed
+    T { n: usize, m: usize, nth: bool }, U { m: usize, nth: bool }, I { m: usize, nth: bool },
     L { m: usize, frames: Vec<Vec<O>>, ctx: Tr<O> },
 }
 
@@ -297,9 +299,9 @@ fn ser_op<K: Kind>(op: &Op<K::O>, out: &mut Vec<String>) {
         Op::N => out.push("n".into()),
         Op::E => out.push("e".into()),
         Op::R { with_e, j, ctx } => { out.push(if *with_e { "R" } else { "r" }.into()); out.push(j.to_string()); ser::<K>(ctx, out); }
-        Op::T { n, m } => { out.push("t".into()); out.push(n.to_string()); out.push(m.to_string()); }
-        Op::U { m } => { out.push("u".into()); out.push(m.to_string()); }
-        Op::I { m } => { out.push("i".into()); out.push(m.to_string()); }
+        Op::T { n, m, nth } => { out.push(if *nth { "tn" } else { "t" }.into()); out.push(n.to_string()); out.push(m.to_string()); }
+        Op::U { m, nth } => { out.push(if *nth { "un" } else { "u" }.into()); out.push(m.to_string()); }
+        Op::I { m, nth } => { out.push(if *nth { "in" } else { "i" }.into()); out.push(m.to_string()); }
         Op::L { m, frames, ctx } => {
             out.push("l".into()); out.push(m.to_string()); out.push(frames.len().to_string());
             for f in frames { out.push(ftok::<K>(f)); }
@@ -488,17 +490,19 @@ fn oracle<K: Kind>(base: &Tr<K::O>, ops: &[Op<K::O>]) -> Vec<Vec<String>> {
                 o.push("]".into());
                 p += hp;
             }
-            Op::T { n, m } => {
+            Op::T { n, m, nth } => {
                 o.push("[".into());
                 for i in 0..*m { if i < *n { o.push(ftok::<K>(&d.fr[p])); p += 1; } else { o.push("none".into()); } }
+                if *nth { let last = o.pop().unwrap(); o.truncate(1); o.push(last); }
                 o.push("]".into());
             }
-            Op::U { m } => {
+            Op::U { m, nth } => {
                 o.push("[".into());
                 for _ in 0..*m { if d.len.map_or(true, |l| p < l) { o.push(ftok::<K>(&d.fr[p])); p += 1; } else { o.push("none".into()); } }
+                if *nth { let last = o.pop().unwrap(); o.truncate(1); o.push(last); }
                 o.push("]".into());
             }
-            Op::I { m } => {
+            Op::I { m, nth } => {
                 // exactly (remaining frames) x channels samples in channel order, then None
                 o.push("[".into());
                 let mut yielded = 0usize;
@@ -506,6 +510,7 @@ fn oracle<K: Kind>(base: &Tr<K::O>, ops: &[Op<K::O>]) -> Vec<Vec<String>> {
                     let fi = p + i / K::N;
                     if d.len.map_or(true, |l| fi < l) { o.push(K::tok(d.fr[fi][i % K::N])); yielded += 1; } else { o.push("none".into()); }
                 }
+                if *nth { let last = o.pop().unwrap(); o.truncate(1); o.push(last); }
                 o.push("]".into());
                 p += (yielded + K::N - 1) / K::N;
             }
@@ -565,22 +570,23 @@ fn execute<K: Kind>(base_t: &Tr<K::O>, ops: &[Op<K::O>]) -> Vec<Vec<String>> {
                 o.extend(logs_tok::<K>(&logs));
                 o.push("]".into());
             }
-            Op::T { n, m } => {
+            Op::T { n, m, nth } => {
                 let mut it = base.by_ref().take(*n);
                 o.push("[".into());
-                for _ in 0..*m { o.push(otok::<K>(it.next())); }
+                if *nth { o.push(otok::<K>(it.nth(*m - 1))); } else { for _ in 0..*m { o.push(otok::<K>(it.next())); } }
                 o.push("]".into());
             }
-            Op::U { m } => {
+            Op::U { m, nth } => {
                 let mut it = base.by_ref().until_exhausted();
                 o.push("[".into());
-                for _ in 0..*m { o.push(otok::<K>(it.next())); }
+                if *nth { o.push(otok::<K>(it.nth(*m - 1))); } else { for _ in 0..*m { o.push(otok::<K>(it.next())); } }
                 o.push("]".into());
             }
-            Op::I { m } => {
+            Op::I { m, nth } => {
                 let mut it = base.by_ref().into_interleaved_samples().into_iter();
                 o.push("[".into());
-                for _ in 0..*m { o.push(match it.next() { Some(s) => K::tok(K::to_o(s)), None => "none".into() }); }
+                if *nth { o.push(match it.nth(*m - 1) { Some(s) => K::tok(K::to_o(s)), None => "none".into() }); }
+                else { for _ in 0..*m { o.push(match it.next() { Some(s) => K::tok(K::to_o(s)), None => "none".into() }); } }
                 o.push("]".into());
             }
             Op::L { m, frames, ctx } => {
@@ -625,7 +631,7 @@ fn groups_agree(obs: &[String], exp: &[String]) -> bool {
 }
 
 fn op_name<O>(op: &Op<O>) -> &'static str {
-    match op { Op::N => "n", Op::E => "e", Op::R { with_e: false, .. } => "r", Op::R { .. } => "R", Op::T { .. } => "t", Op::U { .. } => "u", Op::I { .. } => "i", Op::L { .. } => "l" }
+    match op { Op::N => "n", Op::E => "e", Op::R { with_e: false, .. } => "r", Op::R { .. } => "R", Op::T { nth: false, .. } => "t", Op::U { nth: false, .. } => "u", Op::I { nth: false, .. } => "i", Op::T { .. } => "take_nth", Op::U { .. } => "until_exhausted_nth", Op::I { .. } => "interleaved_nth", Op::L { .. } => "l" }
 }
 
 fn run_case<K: Kind>(st: &mut Stream, stream: &str, base: &Tr<K::O>, ops: &[Op<K::O>]) {
@@ -646,7 +652,7 @@ fn run_case<K: Kind>(st: &mut Stream, stream: &str, base: &Tr<K::O>, ops: &[Op<K
     let n_obs: usize = obs.iter().map(|g| g.len()).sum();
     let flat: Vec<String> = obs.iter().flat_map(|g| g.iter().cloned()).filter(|t| !t.is_empty()).collect();
     let mut pulled = 0usize;
-    for op in ops { pulled += match op { Op::N => 1, Op::R { j, .. } => *j, Op::T { n, m } => *n.min(m), Op::U { m } | Op::L { m, .. } => *m, Op::I { m } => *m / K::N, Op::E => 0 }; }
+    for op in ops { pulled += match op { Op::N => 1, Op::R { j, .. } => *j, Op::T { n, m, .. } => *n.min(m), Op::U { m, .. } | Op::L { m, .. } => *m, Op::I { m, .. } => *m / K::N, Op::E => 0 }; }
     let nontrivial = (n_adaptors(base) >= 1 || ops.iter().any(|o| !matches!(o, Op::N | Op::E))) && pulled >= 2;
     st.case(&line, &flat.join(" "), nontrivial, n_obs as u64);
     // histogram: input distribution
@@ -839,9 +845,9 @@ fn script_exhaust<K: Kind>(g: &mut G, base: &Tr<K::O>) -> Vec<Op<K::O>> {
         let rem = target - pulled;
         if r < 55 { ops.push(Op::N); pulled += 1; if g.rng.chance(2, 3) { ops.push(Op::E); } }
         else if r < 63 { let j = g.rng.usize_below(rem.min(6) + 1); ops.push(Op::R { with_e: true, j, ctx: gen_ctx::<K>(g, 2) }); pulled += j; }
-        else if r < 72 { let n = g.rng.usize_below(rem.min(5) + 1); let m = n + g.rng.usize_below(3); ops.push(Op::T { n, m }); pulled += n; }
-        else if r < 84 { let m = g.rng.usize_below(rem.min(8) + 2); ops.push(Op::U { m }); pulled += m; if g.rng.chance(1, 2) { ops.push(Op::E); } }
-        else if r < 96 { let m = g.rng.usize_below((rem.min(5) + 1) * K::N + 1); ops.push(Op::I { m }); pulled += (m + K::N - 1) / K::N; }
+        else if r < 72 { let n = g.rng.usize_below(rem.min(5) + 1); let m = n + g.rng.usize_below(3); let nth = m >= 1 && g.rng.chance(1, 4); ops.push(Op::T { n, m, nth }); pulled += n; }
+        else if r < 84 { let m = g.rng.usize_below(rem.min(8) + 2); let nth = m >= 1 && g.rng.chance(1, 4); ops.push(Op::U { m, nth }); pulled += m; if g.rng.chance(1, 2) { ops.push(Op::E); } }
+        else if r < 96 { let m = g.rng.usize_below((rem.min(5) + 1) * K::N + 1); let nth = m >= 1 && g.rng.chance(1, 4); ops.push(Op::I { m, nth }); pulled += (m + K::N - 1) / K::N; }
         else {
             let l = g.rng.usize_below(6);
             let frames = (0..l).map(|_| fr::<K>(g.rng, 50)).collect();
@@ -917,7 +923,7 @@ fn run_stream<K: Kind>(st: &mut Stream, stream: &str, rng: &mut Rng, n_random: u
                 let l = base_len::<K>(base).map_or(3, |l| l.min(12));
                 let mut ops = vec![Op::E];
                 for _ in 0..l { ops.push(Op::N); ops.push(Op::E); }
-                ops.push(Op::U { m: 2 }); ops.push(Op::N); ops.push(Op::E); ops.push(Op::I { m: K::N + 1 });
+                ops.push(Op::U { m: 2, nth: false }); ops.push(Op::N); ops.push(Op::E); ops.push(Op::I { m: K::N + 1, nth: false });
                 ops
             };
             run_case::<K>(st, stream, base, &ops);
